@@ -30,7 +30,7 @@ SKELETONS = [
     ("ipv6-port", "https://[2001:db8::1]:", "/x?k=v"),
 ]
 BOUNDS = {
-    "quick": "23 URL skeletons (hole in path tail/middle/root, username, password, host tail, port, query key/value, fragment, before the scheme, scheme separator, after the host, whole string, and right after a '%' in path / query value / username / fragment; two with a concrete punycode host, one the idna codec accepts and one it refuses) x every hole string of length 0..2 (3 for the path / query holes after a '%') over all code points x quoted x strip_fragment (all four combinations up to length 1, one combination per skeleton beyond) x default_protocol in {https, http}; plus holes made of 2 escape tokens (+ one free character in the path) with symbolic hex digits (bytes >= 0x80) in path / query value / username / fragment; plus an escaped 3-byte character (lead byte EF, symbolic continuation escapes) in the password",
+    "quick": "23 URL skeletons (hole in path tail/middle/root, username, password, host tail, port, query key/value, fragment, before the scheme, scheme separator, after the host, whole string, and right after a '%' in path / query value / username / fragment; two with a concrete punycode host, one the idna codec accepts and one it refuses) x every hole string of length 0..2 (3 for the path / query holes after a '%') over all code points x quoted x strip_fragment (all four combinations up to length 1, one combination per skeleton beyond) x default_protocol in {https, http}; plus holes made of 2 escape tokens (+ one free character in the path) with symbolic hex digits (bytes >= 0x80) in path / query value / username / fragment; plus a stray '%' followed by two escapes in the path; plus an escaped 3-byte character (lead byte EF, symbolic continuation escapes) in the password",
     "thorough": "same skeletons, holes of length 0..4 (3 in netloc positions)",
 }
 STUBS = ["UTF-8 codec, urllib.parse.quote, dict table lookups, regex matcher (see C14)", "stdlib urlsplit / SplitResult properties / urlunsplit interpreted from source",
@@ -85,6 +85,11 @@ def items(tier):
             for quoted in ((False,) if quick else (False, True)):
                 out.append({"fn": "canon", "params": {"skel": names.index(name), "n": 0, "quoted": quoted, "strip_fragment": quoted, "dp": "https", "shape": sh},
                             "name": "%s tokens=%s quoted=%s" % (name, sh, quoted), "weight": 30 ** len(sh), "defer_depth": 8})
+    # a stray '%' followed by two escapes (symbolic hex digits): what they decode to must not fuse with it into a new escape
+    for name in (("path-tail",) if quick else ("path-tail", "query-value", "userinfo", "fragment")):
+        for quoted in ((False,) if quick else (False, True)):
+            out.append({"fn": "canon", "params": {"skel": names.index(name), "n": 0, "quoted": quoted, "strip_fragment": quoted, "dp": "https", "shape": "EE", "lead": "%"},
+                        "name": "%s tokens=%%EE quoted=%s" % (name, quoted), "weight": 900, "defer_depth": 8})
     # userinfo holding an escaped 3-byte character (fixed lead byte, two symbolic continuation escapes): reaches the
     # characters whose NFKC form contains a delimiter, which the url parser refuses in a netloc
     for name, leads in (("password", ["%EF"]), ("userinfo", [])) if quick else (("password", ["%EF", "%E2"]), ("userinfo", ["%EF", "%E2"])):
